@@ -311,17 +311,17 @@ func failingAnnounce() *sched.Scenario {
 			p, ch := w.Pubs[0], w.Chains[0]
 			second := w.Listen()
 			return []sched.Thread{{Name: "A", Fn: func() {
-				e.Log("A call Announce")
-				err := w.Sub.Announce(context.Background(), ch.Cids[2], p.AddrInfo())
-				e.Log("A ret Announce err=%v", err)
-			}}}, finish(e, w, func(f *final) {
-				evs, cl := second.StopCheck()
-				var l []string
-				for _, ev := range evs {
-					l = append(l, w.EventStr(ev))
-				}
-				e.Log("second-listener events=%v closed=%v", l, cl)
-			})
+					e.Log("A call Announce")
+					err := w.Sub.Announce(context.Background(), ch.Cids[2], p.AddrInfo())
+					e.Log("A ret Announce err=%v", err)
+				}}}, finish(e, w, func(f *final) {
+					evs, cl := second.StopCheck()
+					var l []string
+					for _, ev := range evs {
+						l = append(l, w.EventStr(ev))
+					}
+					e.Log("second-listener events=%v closed=%v", l, cl)
+				})
 		},
 		Check: func(e *sched.Exec) []sched.Finding {
 			out := basics(e, name, []string{"A"})
@@ -346,10 +346,74 @@ func failingAnnounce() *sched.Scenario {
 	}
 }
 
+// N4: a sync (explicit or announce-triggered) races with Close. A listener is
+// registered before everything and read only at the end. Whatever the
+// schedule, a sync that updated the latest-synced advertisement has produced
+// its notification, and the listener finds it in its channel before the
+// channel is closed; a sync refused or cancelled by the shutdown changes nothing.
+func syncVsClose(mode string) *sched.Scenario {
+	name := "N4-" + mode + "-sync-vs-close"
+	return &sched.Scenario{Name: name,
+		Setup: func(e *sched.Exec) ([]sched.Thread, func()) {
+			w := schedfx.New(e, schedfx.Options{Pubs: 1, ChainLen: 2, Prestore: true, Announce: mode == "announce"})
+			p, ch := w.Pubs[0], w.Chains[0]
+			p.Publisher.SetRoot(ch.Cids[1])
+			ths := []sched.Thread{
+				{Name: "X", Fn: func() {
+					if mode == "announce" {
+						e.Log("X call Announce")
+						err := w.Sub.Announce(context.Background(), ch.Cids[1], p.AddrInfo())
+						e.Log("X ret Announce err=%v", err != nil)
+						return
+					}
+					e.Log("X call sync")
+					_, err := w.Sub.SyncAdChain(context.Background(), p.AddrInfo())
+					e.Log("X ret sync ok=%v", err == nil)
+				}},
+				{Name: "C", Fn: func() {
+					e.Log("C call Close")
+					err := w.Sub.Close()
+					e.Log("C ret Close err=%v", err)
+				}},
+			}
+			return ths, finish(e, w, nil)
+		},
+		Check: func(e *sched.Exec) []sched.Finding {
+			out := basics(e, name, []string{"X", "C"})
+			f, _ := e.Data.(*final)
+			if f == nil || len(out) > 0 {
+				return out
+			}
+			okRet := false
+			for _, l := range e.Obs() {
+				if l == "X ret sync ok=true" {
+					okRet = true
+				}
+			}
+			want := "pub0[1] count=1"
+			e.Class = fmt.Sprintf("latest=%d events=%v", f.latest[0], f.setup)
+			switch {
+			case len(f.setup) > 1 || (len(f.setup) == 1 && f.setup[0] != want && f.setup[0] != "pub0[1] count=0 err"):
+				out = append(out, sched.Finding{Sig: name + ":unexpected-events", Msg: fmt.Sprintf("listener got %v", f.setup)})
+			case f.latest[0] == 1 && fmt.Sprint(f.setup) != "["+want+"]":
+				out = append(out, sched.Finding{Sig: name + ":latest-updated-without-notification", Msg: fmt.Sprintf("latest-synced advanced to block 1 but the listener registered before the sync received %v before its channel closed", f.setup)})
+			case okRet && fmt.Sprint(f.setup) != "["+want+"]":
+				out = append(out, sched.Finding{Sig: name + ":successful-sync-without-notification", Msg: fmt.Sprintf("the sync returned without error but the listener received %v", f.setup)})
+			case f.latest[0] != 1 && len(f.setup) == 1 && f.setup[0] == want:
+				out = append(out, sched.Finding{Sig: name + ":notification-without-latest-update", Msg: fmt.Sprintf("latest=%v events=%v", f.latest, f.setup)})
+			}
+			if !f.closed {
+				out = append(out, sched.Finding{Sig: name + ":listener-channel-not-closed-by-close", Msg: fmt.Sprintf("events=%v", f.setup)})
+			}
+			return out
+		},
+	}
+}
+
 func TestCheck(t *testing.T) {
 	r := vp.New("C14", "model_checking",
-		"scenarios on the real subscriber built with the instrumentation overlay (gated in-memory publishers, chains of 3 signed ads): N1 two publishers synced by two threads with a reading and a never-reading listener; N2 two successive explicit syncs of one publisher while a listener registers and cancels at scheduler-chosen moments and a reader polls (checking the latest-synced value at the moment each event arrives); N3 an announce-triggered sync with a failing block request. All interleavings at the scheduling points (locks, atomics, channel operations of OnSyncFinished / cancel / the distributor, selects, spawns, requests, hook calls, observations) up to the preemption bound. states = distinct decision states; transitions = scheduling steps; traces = executions of the real code.",
-		"cooperative scheduling at synchronization operations; priority selects in source order; at most 3 listeners and 2 publishers",
+		"scenarios on the real subscriber built with the instrumentation overlay (gated in-memory publishers, chains of 3 signed ads): N1 two publishers synced by two threads with a reading and a never-reading listener; N2 two successive explicit syncs of one publisher while a listener registers and cancels at scheduler-chosen moments and a reader polls (checking the latest-synced value at the moment each event arrives); N3 an announce-triggered sync with a failing block request; N4 an explicit / an announce-triggered sync racing with Close while a listener registered beforehand reads only at the end. All interleavings at the scheduling points (locks, atomics, channel operations of OnSyncFinished / cancel / the distributor, selects, spawns, requests, hook calls, observations) up to the preemption bound. states = distinct decision states; transitions = scheduling steps; traces = executions of the real code.",
+		"cooperative scheduling at synchronization operations; every multi-case select is a priority select whose first-tried case is a scheduler decision (a non-default first case costs one unit of the bound, like a preemption); at most 3 listeners and 2 publishers",
 		"in N1 and N2 the chain blocks are already in the destination store (they are reported but not requested), so each sync makes only the head request",
 		"'registered before the sync finished' is judged by real-time order in the observation log: registration returned before the sync was invoked, cancel invoked after it returned",
 	)
@@ -362,7 +426,7 @@ func TestCheck(t *testing.T) {
 	if vp.Thorough() {
 		bound = 3
 	}
-	scs := []*sched.Scenario{twoPublishers(), registerDuringSyncs(), failingAnnounce()}
+	scs := []*sched.Scenario{syncVsClose("explicit"), syncVsClose("announce"), twoPublishers(), registerDuringSyncs(), failingAnnounce()}
 	r.Bounds(map[string]any{"preemption_bound": bound, "scenarios": len(scs)})
 	budget := 0.0
 	if v := os.Getenv("VERIF_BUDGET_S"); v != "" {
